@@ -21,6 +21,7 @@ pub mod c01;
 pub mod c02;
 pub mod c04;
 pub mod c05;
+pub mod c07;
 pub mod c09;
 pub mod c10;
 pub mod c11;
